@@ -431,9 +431,17 @@ class ShmSegment:
         assert shm_buf is not None  # segment still open
 
         if not _has_dictionary_columns(batch.schema):
-            # Non-dict: write IPC stream directly into SHM via _ShmSink
-            estimated = ipc.get_record_batch_size(batch) + _STREAM_OVERHEAD
-            offset = self._allocator.allocate(estimated)
+            # Non-dict: write IPC stream directly into SHM via _ShmSink.
+            # Size the allocation by a dry run through a counting sink: the
+            # schema message (wide schemas, schema/field metadata) and the
+            # dictionary batches of nested dictionary columns are not part of
+            # get_record_batch_size(), so a fixed overhead under-allocates and
+            # the write would run into the neighbouring allocation.
+            counter = pa.MockOutputStream()
+            dry = new_ipc_stream(counter, batch.schema)
+            dry.write_batch(batch)
+            dry.close()
+            offset = self._allocator.allocate(max(counter.size(), 1))
             if offset is None:
                 return None
             sink = _ShmSink(shm_buf, offset)
